@@ -321,7 +321,53 @@ def rcheck(x):
 harness("c13.race", prop="C13", traced=("map", "flat_map", "common"), horizon=20, params=_rparams())(rbody)
 oracle("c13.race")(rcheck)
 
+# ------------------------------------------------------------------ chaining onto a future that is being completed
+def _kparams():
+    return [dict(flat=fl, inp=i, form=fo) for fl in (False, True) for i in ("ok", "err") for fo in ("f", "executor")]
+
+
+def kbody(mc, p):
+    src = ProbeFuture(mc, "src")
+    g = (lambda v: F.f_return(("g", v))) if p["flat"] else (lambda v: ("g", v))
+    h = (lambda v: F.f_return(("h", v))) if p["flat"] else (lambda v: ("h", v))
+    mk = F.f_flat_map if p["flat"] else F.f_map
+    m1 = mk(src, g)
+    res = {}
+
+    def completer():
+        if src.set_running_or_notify_cancel():
+            if p["inp"] == "ok":
+                src.set_result("x")
+            else:
+                src.set_exception(E("in"))
+
+    def chainer():
+        m2 = mk(m1, h)
+        m2.add_done_callback(lambda f: mc.emit("m2.done"))
+        res["m2"] = m2
+        m3 = mk(m2, None)
+        res["m3"] = m3
+    mc.spawn(completer, "comp")
+    mc.spawn(chainer, "chain")
+    mc.sleep(3)
+    mc.observe(m1=snapshot(m1), m2=snapshot(res["m2"]) if "m2" in res else None,
+               m3=snapshot(res["m3"]) if "m3" in res else None)
+
+
+def kcheck(x):
+    p = x.p
+    if not x.require(x.end == "done" and "m2" in x.obs, "bad-ending", end=x.end):
+        return
+    want = ("ok", ("h", ("g", "x"))) if p["inp"] == "ok" else ("err", "E(in)")
+    for k in ("m2", "m3"):
+        x.require(x.obs[k] == (want[0], brief(want[1])), "chained-future-wrong", which=k,
+                  detail="got %r want %r (m1=%r)" % (x.obs[k], want, x.obs["m1"]))
+
+
+harness("c13.chainrace", prop="C13", traced=("map", "flat_map", "common"), horizon=20, params=_kparams())(kbody)
+oracle("c13.chainrace")(kcheck)
+
 PLAN = {
-    "quick": [dict(harness="c13.laws", bound=0), dict(harness="c13.chains", bound=0), dict(harness="c13.race", bound=2)],
-    "thorough": [dict(harness="c13.laws", bound=0), dict(harness="c13.chains", bound=0), dict(harness="c13.race", bound=4)],
+    "quick": [dict(harness="c13.laws", bound=0), dict(harness="c13.chainrace", bound=2), dict(harness="c13.chains", bound=0), dict(harness="c13.race", bound=2)],
+    "thorough": [dict(harness="c13.laws", bound=0), dict(harness="c13.chainrace", bound=3), dict(harness="c13.chains", bound=0), dict(harness="c13.race", bound=4)],
 }
